@@ -249,9 +249,9 @@ func VH_object(nkeys int, steps int) {
 				for j := 0; j < 4; j++ {
 					if m.has[j] {
 						if m.null[j] {
-							verifAssert("printed-object-shows-every-property", verifTextContainsInOrder(text, norm.NFC.String(obKeys[j])+":", "nil"))
+							verifAssert("printed-object-shows-every-property", verifTextContainsInOrder(text, norm.NFC.String(obKeys[j]), "nil"))
 						} else {
-							verifAssert("printed-object-shows-every-property", verifTextContainsInOrder(text, norm.NFC.String(obKeys[j])+":"+fmt.Sprintf("%v", m.vals[j])))
+							verifAssert("printed-object-shows-every-property", verifTextContainsInOrder(text, norm.NFC.String(obKeys[j]), fmt.Sprintf("%v", m.vals[j])))
 						}
 					}
 				}
@@ -270,4 +270,62 @@ func VH_object(nkeys int, steps int) {
 		cur, _ := o1.(map[string]interface{})
 		obCompare(cur, m)
 	}
+}
+
+// VH_objectBig (C12): listings of an object with n properties (far beyond the literals of
+// VH_object), before and after a change that keeps the number of properties: one property
+// removed, one new property set, one value overwritten. Every listing shows every current
+// property exactly once, values in the order of the keys.
+func VH_objectBig(n int) {
+	in := NewInterpreter()
+	obj := map[string]interface{}{}
+	want := map[string]float64{}
+	for i := 0; i < n; i++ {
+		k := "k" + string(rune('a'+i))
+		obj[k] = float64(i)
+		want[k] = float64(i)
+	}
+	check := func(tag string) {
+		kv, err1 := NativeKeysFn{}.Call(in, []interface{}{obj})
+		vv, err2 := NativeValuesFn{}.Call(in, []interface{}{obj})
+		keys, ok1 := kv.([]interface{})
+		vals, ok2 := vv.([]interface{})
+		verifAssert("listing-succeeds", err1 == nil && err2 == nil && ok1 && ok2)
+		if !(ok1 && ok2) {
+			return
+		}
+		verifAssert("listing-has-one-entry-per-property", len(keys) == len(want) && len(vals) == len(want))
+		if len(keys) != len(want) || len(vals) != len(want) {
+			return
+		}
+		seen := map[string]bool{}
+		for i := range keys {
+			k, isS := keys[i].(string)
+			verifAssert("listed-key-is-a-current-property", isS && !seen[k])
+			if !isS {
+				return
+			}
+			seen[k] = true
+			w, has := want[k]
+			verifAssert("listed-key-is-a-current-property", has)
+			if has {
+				f, isF := vals[i].(float64)
+				verifAssert("ith-value-belongs-to-ith-key", isF && f == w)
+			}
+		}
+	}
+	check("before")
+	// remove one, add one, overwrite one: the count stays n
+	victim := "k" + string(rune('a'+verifChoice(n)))
+	_, errD := NativeDeleteFn{}.Call(in, []interface{}{obj, victim})
+	verifAssert("delete-succeeds", errD == nil)
+	delete(want, victim)
+	obj["zz"] = 100.0
+	want["zz"] = 100.0
+	other := "k" + string(rune('a'+(verifChoice(n-1)+1)%n))
+	if _, still := want[other]; still {
+		obj[other] = 200.0
+		want[other] = 200.0
+	}
+	check("after")
 }
